@@ -54,7 +54,11 @@ Inductive case :=
 | CPack (n : N) (obs : option (N * N * N * bool))
   (** concurrent replies on one server connection: expected and observed
       (id, len, checksum) per frame, and max Write calls per reply *)
-| CServer (expected observed : list (N * N * N)) (max_writes : N).
+| CServer (expected observed : list (N * N * N)) (max_writes : N)
+  (** dnsutils.ReadMsgFromTCP (frame reader + unpacking, what ServeTCP and the DoQ server use) on one frame
+      whose payload is [gen_bytes n seed], mostly garbage: [parses] is what the DNS library itself says about
+      these bytes; observed 0 a message came back, 1 an error, 2 a panic *)
+| CUnpack (n seed : N) (parses : bool) (res : N).
 
 Definition pair_eqb (a b : N * N) : bool := (fst a =? fst b) && (snd a =? snd b).
 Definition triple_eqb (a b : N * N * N) : bool :=
@@ -98,6 +102,8 @@ Definition agree (c : case) : bool :=
     end
   | CServer expected observed mw =>
     list_eqb triple_eqb (sort3 expected) (sort3 observed) && (mw =? 1)
+  | CUnpack n seed parses res =>
+    if (min_frame_len <=? n) && (n <=? 65535) && parses then res =? 0 else res =? 1
   end.
 
 (** The property's own oracle, stated without the reader model where that is
@@ -141,6 +147,9 @@ Definition spec (c : case) : bool :=
     else match obs with None => true | Some _ => false end
   | CServer expected observed mw =>
     list_eqb triple_eqb (sort3 expected) (sort3 observed)
+  | CUnpack n seed parses res =>
+    (* garbage yields an error, never a panic; what the library can parse comes back *)
+    negb (res =? 2) && (if (13 <=? n) && (n <=? 65535) && parses then res =? 0 else res =? 1)
   end.
 
 (** A case is non-trivial when it exercises a split header, a multi-frame
@@ -155,4 +164,5 @@ Definition nontrivial (c : case) : bool :=
   | CWrite _ n _ _ => boundary n || (65535 <? n)
   | CPack n _ => true
   | CServer e _ _ => 1 <? N.of_nat (length e)
+  | CUnpack n _ parses _ => negb parses
   end.
